@@ -4,7 +4,7 @@ from harness import o_c06
 
 PROP = dict(
     groups=[],
-    obligations=[obl('C14.request_forms', oracle=o_c06.batch_for('heat'))],
+    obligations=[obl('C14.request_forms', oracle=[o_c06.batch_for('heat'), o_c06.coord_major_instances])],
     corr_models=[],
     scope='The theorems of this property are statements about points; the heat-conduction solvers are called here with the same points in other '
           'forms (shuffled, reversed, inside another batch, duplicated, alone, as an integer array, through one array object that is '
